@@ -1080,6 +1080,11 @@ class Evaluator:
 
     # ---- calls
     def e_Call(s, e, env, mod, depth):
+        # evaluation order of the language: the callee (or the receiver of a method) first, then the arguments -- it matters when one of them
+        # takes an entry out of a dictionary that the other one reads
+        f = e.func
+        if isinstance(f, ast.Attribute): recv = s.ev(f.value, env, mod, depth)
+        else: fv = s.ev(f, env, mod, depth)
         args = []
         for a in e.args:
             if isinstance(a, ast.Starred):
@@ -1094,12 +1099,8 @@ class Evaluator:
                 if isinstance(v, dict) and all(isinstance(x, str) for x in v): kw.update(v)
                 else: kw['**'] = v
             else: kw[k.arg] = s.ev(k.value, env, mod, depth)
-        f = e.func
-        # method call: evaluate receiver first
         if isinstance(f, ast.Attribute):
-            recv = s.ev(f.value, env, mod, depth)
             return s.call_method(recv, f.attr, args, kw, mod, depth, e)
-        fv = s.ev(f, env, mod, depth)
         return s.apply(fv, args, kw, mod, depth, e)
 
     def _lift_args(s, args, kw, rebuild, budget=3):
@@ -1387,17 +1388,24 @@ class Evaluator:
         if name == 'dict' and len(args) == 1 and not kw and isinstance(a, Comp) and a.kind in ('list', 'gen') and isinstance(a.elt, (tuple, list)) and len(a.elt) == 2:
             return Comp(tuple(a.elt), a.gens, 'dict')
         if name == 'zip' and set(kw) <= {'strict'}: kw = {}                  # strict only adds a length check
+        if name == 'zip' and args and not kw and all(isinstance(x, (list, tuple, str)) for x in args):
+            return [tuple(t_) for t_ in zip(*args)]                         # concrete sequences (a string iterates its characters)
         if name == 'enumerate' and len(args) == 1 and isinstance(a, (list, tuple)) and (not kw or (set(kw) == {'start'} and isinstance(kw['start'], Poly) and kw['start'].is_zero())):
             return [(Poly.const(i_), x_) for i_, x_ in enumerate(a)]
         if name == 'enumerate' and kw.get('start') is not None and isinstance(kw['start'], Poly) and kw['start'].is_zero(): kw = {}
         if name == 'filter' and len(args) == 2 and not kw and isinstance(args[0], (Closure, Ref)):
             # filter(f, xs) == [x for x in xs if f(x)]
+            if isinstance(args[1], (list, tuple)) and len(args[1]) <= 24:
+                keep_ = [s.truth(s.apply(args[0], [x_], {}, mod, depth)) for x_ in args[1]]
+                if all(k_ in (True, False) for k_ in keep_): return [x_ for x_, k_ in zip(args[1], keep_) if k_]
             it_ = _iter_view(args[1]); x_ = s.elem_of(it_, 0)
             base_, fl_ = _fuse_iter2(_fuse_iter(it_))
             g_ = s.truth(s.apply(args[0], [x_], {}, mod, depth))
             return Comp(x_, [(base_, fl_ + ([g_] if g_ is not True else []))], 'list')
         if name == 'map' and len(args) == 2 and not kw and (isinstance(args[0], (Closure, Ref)) or (isinstance(args[0], Poly) and args[0].as_atom() is not None)):
             # map(f, xs) == [f(x) for x in xs]
+            if isinstance(args[1], (list, tuple)) and len(args[1]) <= 24:
+                return [s.apply(args[0], [x_], {}, mod, depth) for x_ in args[1]]      # concrete sequence: element by element
             it_ = _iter_view(args[1]); x_ = s.elem_of(it_, 0)
             return Comp(s.apply(args[0], [x_], {}, mod, depth), [(_fuse_iter(it_), [])], 'list')
         if name in ('zip', 'enumerate', 'set', 'sorted', 'any', 'all', 'min', 'max', 'range', 'map', 'reversed', 'iter', 'next', 'hasattr', 'getattr', 'print', 'filter', 'frozenset'):
